@@ -8,6 +8,11 @@ HERE = os.path.dirname(os.path.dirname(os.path.abspath(__file__)))
 GOENV = "GOFLAGS=-mod=mod GOPROXY=off GOSUMDB=off GOTOOLCHAIN=local GOWORK=off"
 
 CLAIMED = {
+  "C01": dict(
+    text="Whole-program static taint analysis over go/ssa with call/return matching (realizable paths, parameter->result summaries), field-based for servitor structs: it proves that on no path does a value derived from the TLS connection, a document file, a string asserted out of untyped JSON, or text re-materialised by the HTML parser (entity-decoded text nodes and attribute values, percent-decoded URL components) reach the terminal callback, a direct terminal write, or the text/preview/name of any item or any Markup.Render result without passing ansi.Scrub; the SGR parameter of ansi.Apply is shown to be built from constants and validated configuration colours only, and escape bytes in literals are confined to the SGR generator. A sanitiser-before-sink property is visible in the shape of the code, so one rule instance covers every document, markup type, header line and width at once.",
+    note="Trusted: propagate-by-default summaries for library calls (results and written-through arguments), net/url.Parse rejecting control characters and quoting its input in errors, x/net/html copying tag names/attribute keys verbatim, ansi.Scrub's predicate (unicode.IsControl) being the right class. Not decided: terminal-specific interpretation of printable code points.",
+    technique="static interprocedural taint (value-flow) analysis over SSA with call/return matching; sanitiser-before-sink",
+    ref="DESIGN.md §4 C01"),
   "C08": dict(
     text="Whole-program static lock-state dataflow (held / caller's / not held, defer-aware) over go/ssa with the VTA call graph, plus an effects (write-set) analysis of fan-out goroutines: every access to UI state, every emitted frame and every render-cache write is shown to happen with State.m held on every path; lock pairing, non-reentrancy, WaitGroup balance, pairwise disjoint write sets of concurrently running closures and read-only sharing of documents/configuration are decided for every function of the module. All paths and all schedules are covered because the rule is a must-analysis over the code, not a sample of executions.",
     note="Trusted: go/types+go/ssa+VTA (x/tools v0.29.0), sync primitives, lru.Cache and singleflight.Group being internally synchronised, library callbacks being synchronous. Not decided: liveness under real schedulers, races inside dependencies, the deliberate lock hold on a failing sub-command.",
